@@ -387,7 +387,24 @@ class Env:
                 procs[rule] = self._objproc(rule)
         if cfg["wrap"]:
             procs = {k: textxerror_wrap(v) for k, v in procs.items()}
-        self.mm.register_obj_processors(procs)
+        self.mm_n = None
+        if cfg.get("two_langs"):
+            kw_n = dict(kw)
+            if self.classes:
+                kw_n["classes"] = self.classes_n = [make_class(n, v, self.rec) for n, v in cfg["classes"]]
+            self.mm_n = metamodel_from_str(grammar(), **kw_n)
+            self.mm_n.register_scope_providers({"*.*": self.prov})
+            self.mm_n.register_obj_processors(procs)
+            if cfg["modelproc"]:
+                self.mm_n.register_model_processor(self._modelproc)
+            textx.clear_language_registrations()
+            textx.register_language("lang-m", pattern="*.m", metamodel=self.mm)
+            textx.register_language("lang-n", pattern="*.n", metamodel=self.mm_n)
+            self.ctx.probe("two-languages")
+        if not (cfg.get("two_langs") and cfg.get("main_without_procs")):
+            self.mm.register_obj_processors(procs)
+        else:
+            self.ctx.probe("main-language-without-object-processors")
         if cfg["modelproc"]:
             self.mm.register_model_processor(self._modelproc)
 
@@ -589,7 +606,15 @@ def _check_use_kwargs(ctx, env, ent, kw, cfgcls):
 def check_c13(ctx, env, cfgcls):
     """C13 over the recorded history of one successful load (strong recorder)."""
     rec = env.rec
-    procs = set(env.cfg["procs"])
+    all_procs = set(env.cfg["procs"])
+    no_main = bool(env.cfg.get("two_langs") and env.cfg.get("main_without_procs"))
+
+    def procs_of(fn):
+        # each model is processed with the processors of its own language
+        if no_main and not (fn or env.world.main).endswith(".n"):
+            return set()
+        return all_procs
+
     seq = rec.seq
     last_res = max([i for i, e in enumerate(seq) if e[0] == "prov-resolved"], default=-1)
     last_init = max([i for i, e in enumerate(seq) if e[0] == "init"], default=-1)
@@ -610,6 +635,7 @@ def check_c13(ctx, env, cfgcls):
             objs.append((fn, rule, par() if par is not None else None, pos, o))
     idx_of = {}
     for fn, rule, par, pos, o in objs:
+        procs = procs_of(fn)
         cl = calls.get(id(o), [])
         own = [i for i, ru in cl if ru == rule]
         if rule in procs and len(own) != 1:
@@ -708,6 +734,10 @@ def draw_cfg(t, prop, nfiles):
         "global_repo": t.chance(1, 2 if prop == "C13" else 3, "global-repo"),
         "grammar_files": t.chance(1, 5, "grammar-in-several-files"),
         "built_twice": t.chance(1, 6, "metamodel-built-twice-with-the-same-classes"),
+        # two registered languages (files f<odd>.n belong to a second metamodel with processors of its own); the main
+        # language may have no object processors at all
+        "two_langs": prop == "C13" and family in ("plainuri", "fqnuri") and t.chance(1, 4, "two-languages"),
+        "main_without_procs": t.chance(1, 2, "main-language-without-object-processors"),
         "prim_root": bool(classes) and t.chance(1, 8, "primitive-root-rule"),
         "prim_root_kind": t.pick(["int", "decimal", "tuple", "frozenset"], "primitive-root-kind"),
     }
@@ -720,8 +750,11 @@ def run(ctx):
     cfg = draw_cfg(t, prop, nfiles)
     if cfg["family"] in ("plain", "fqn"):
         nfiles = 1
+    if cfg["two_langs"] and (nfiles < 2 or cfg["grammar_files"] or cfg["prim_root"]):
+        cfg["two_langs"] = False
     w = gen_world(t, "/sim/w2", nfiles=nfiles, qualified=cfg["family"] in ("fqnuri", "rrel", "fqn"),
-                  max_refs=12, vals=True, alt_multipart=cfg["family"] == "rrel")
+                  max_refs=12, vals=True, alt_multipart=cfg["family"] == "rrel",
+                  second_ext=".n" if cfg["two_langs"] else None)
     closure = w.closure()
     refs = [r for r in w.refs if r.owner.file in closure]
     mode = t.pick(["dag", "rounds", "eager", "dag"], "mode")
